@@ -16,7 +16,7 @@ Local Open Scope N_scope.
 Record fixes := mkFixes {
   fx_thresh : bool;   (* threshold: `i < k` instead of `i <= k` (top-k, not top-(k+1), satisfactions) *)
   fx_dupif : bool;    (* cast_dupif: witness size + 2, count + 1 instead of size + 1, count + 2 *)
-  fx_unc : bool;      (* pk_k / pk_h with an uncompressed key: 66 bytes (push opcode + 65) instead of 65 *)
+  fx_unc : bool;      (* pk_h with an uncompressed key: 66 bytes (push opcode + 65) instead of 65 *)
   fx_andv : bool      (* and_v: dissat_data = sat(l) ++ dissat(r), as the satisfier computes it *)
 }.
 Definition as_written : fixes := mkFixes false false false false.
@@ -104,8 +104,10 @@ Definition unc_bytes (fx : fixes) : N := if fx_unc fx then 66 else 65.
 Definition key_sig_bytes (fx : fixes) (schnorr unc : bool) : N * N :=
   if schnorr then (33, 66) else if unc then (unc_bytes fx, 73) else (34, 73).
 
+(* pk_k counts an uncompressed key as 66 bytes since /repo 4c5160f8; pk_h still reads [unc_bytes fx] *)
+Definition fx_pkk (fx : fixes) : fixes := mkFixes (fx_thresh fx) (fx_dupif fx) true (fx_andv fx).
 Definition ext_pk_k (fx : fixes) (schnorr unc : bool) : ext :=
-  let '(kbytes, sbytes) := key_sig_bytes fx schnorr unc in
+  let '(kbytes, sbytes) := key_sig_bytes (fx_pkk fx) schnorr unc in
   mkExt kbytes false 0 (Some (mkSD sbytes 1 sbytes 1 0)) (Some (mkSD 1 1 1 1 0)) tl_new 0.
 
 (* pk_h(Some pk) / pk_h(None): [unc] is false for RawPkH *)
